@@ -41,9 +41,15 @@ def run(ctx):
     run_durable(ctx,
                 model=["s01_step_wait_retry", "s03_child_wfc", "s04_cb_invoke", "s09_large_final"],
                 programs=["s01_step_wait_retry", "s02_amo_retry_caughtfail", "s03_child_wfc", "s04_cb_invoke", "s09_large_final",
-                          "s10_uncaught_failure", "s12_wfc_three_polls", "s16_wait_wait", "s22_slow_steps", "s23_slow_caught"],
+                          "s10_uncaught_failure", "s12_wfc_three_polls", "s16_wait_wait", "s22_slow_steps", "s23_slow_caught",
+                          # final ERRORS raised to user code (caught there) by contexts whose failure comes from the SDK's own error
+                          # classes: a failed / timed-out callback inside wait_for_callback, a failed invoke inside a child context
+                          "s05_wfcb_childfail_wfcfail",
+                          {"nodes": [{"k": "wfcb", "caught": True}, {"k": "step"}, {"k": "wait"}, {"k": "step"}]},
+                          {"nodes": [{"k": "child", "caught": True, "body": [{"k": "step"}, {"k": "invoke"}]}, {"k": "step"}, {"k": "wait"}]},
+                          {"nodes": [{"k": "child", "caught": True, "body": [{"k": "cb", "between": []}]}, {"k": "step"}]}],
                 oracle_fns=[oracles.c03, oracles.c06, oracles.c07],
-                scen_kw={"crash": 0.3, "faults": 0.5, "pct": 0.6},
+                scen_kw={"crash": 0.3, "faults": 0.5, "pct": 0.6, "ext_fail": 0.7},
                 post=slow_api,
                 extra_rule="Oracle: at every delivery the backend table (read in the same scheduling step) holds the terminal record; "
                            "PENDING only with something registered; the consumer thread is delayed arbitrarily by PCT/random schedules; "
